@@ -52,6 +52,9 @@ VGiant(x) == LET need == Worst(x.nb) * x.km + Worst(x.nb) * x.vm IN
 \* (an implementation that sizes the text exactly instead of by the worst case may succeed - then with the right text)
 VGiantMalloc(x) == FailIf(Worst(x.nb) * x.km + Worst(x.nb) * x.vm > IntMaxMillions /\ ~((x.rc # 0 /\ x.untouched) \/ (x.rc = 0 /\ x.textOK)), "C17", "the allocating variant neither refused a list whose worst-case size exceeds INT_MAX (handing out nothing) nor composed it correctly")
 
+\* writing a text of hundreds of millions of characters into 64: refused, nothing beyond the capacity
+VGiantWrite(x) == FailIf(x.fault # 0 \/ x.rc = 0, "C17", "composing a text far larger than the capacity wrote beyond maxChars (or reported success)")
+
 \* the boundary itself: the list's exact worst-case size (lengths only; keys share one buffer) is within 3 of INT_MAX.
 \* TLC integers are 32 bit: sizes are kept as <<hi, lo>> in base 2^20.
 B20 == 1048576
@@ -71,6 +74,6 @@ VBoundaryMalloc(x) == LET need == SumItems(x.items, 1, x.nb, <<0, 0>>) IN
      FailIf((PairGt(need, IntMaxPair) \/ need = IntMaxPair) /\ ~((x.rc # 0 /\ x.untouched) \/ (x.rc = 0 /\ x.textOK)), "C17", "the allocating variant neither refused a list whose worst-case size plus terminator exceeds INT_MAX (handing out nothing) nor composed it correctly")
 
 V(x) == CASE x.e = "ComposeReqBoundary" -> VBoundary(x) [] x.e = "ComposeMallocBoundary" -> VBoundaryMalloc(x) [] x.e = "ComposeReq" -> VComposeReq(x) [] x.e = "Compose" -> VCompose(x) [] x.e = "ComposeMalloc" -> VComposeMalloc(x)
-          [] x.e = "Dissect" -> VDissect(x) [] x.e = "ComposeMallocHuge" -> VHuge(x) [] x.e = "DissectFault" -> VDissectFault(x) [] x.e = "ComposeFault" -> VComposeFault(x) [] x.e = "ComposeReqGiant" -> VGiant(x) [] x.e = "ComposeMallocGiant" -> VGiantMalloc(x) [] OTHER -> Fail("C17", "unknown event")
+          [] x.e = "Dissect" -> VDissect(x) [] x.e = "ComposeMallocHuge" -> VHuge(x) [] x.e = "DissectFault" -> VDissectFault(x) [] x.e = "ComposeFault" -> VComposeFault(x) [] x.e = "ComposeReqGiant" -> VGiant(x) [] x.e = "ComposeMallocGiant" -> VGiantMalloc(x) [] x.e = "ComposeGiantWrite" -> VGiantWrite(x) [] OTHER -> Fail("C17", "unknown event")
 TNext == TStep(V)
 =============================================================================
